@@ -59,6 +59,16 @@ class Ext:
     def from_box(self, ex, t, elem=None):
         if elem is not None:
             return elem.unbox(ex, t)
+        reg = getattr(ex, "boxed_objs", None)
+        if reg:
+            # the very reference of a mutable wrapper that was put into a container on this path: hand the wrapper back
+            try:
+                st = z3.simplify(t)
+            except z3.Z3Exception:
+                st = t
+            o = reg.get(st.get_id())
+            if o is not None:
+                return o
         return VObj(t)
 
     def same(self, ex, a, b):
@@ -319,6 +329,13 @@ class Ext:
         if isinstance(c, VSeq):
             if c.sk == "bytes":
                 raise Unsupported("in on bytes")
+            src = getattr(c, "member_src", None)
+            if src is not None and c.arr is src[2] and c.n is src[3]:
+                # membership provenance (unchanged since it was recorded): set(s) / list(s) have the members of s, a + b those
+                # of a and of b -- asked of the sources, which saves a layer of quantifier alternation per conversion
+                if src[0] == "same":
+                    return self.contains(ex, src[1], x, node)
+                return z3.Or(*[self.contains(ex, p, x, node) for p in src[1]])
             return ex.exists(0, c.n, lambda i: self.same(ex, self.from_box(ex, z3.Select(c.arr, i), c.elem), x), "i_in")
         if isinstance(c, VStr):
             if isinstance(x, VStr):
@@ -415,7 +432,20 @@ class Ext:
             ex.throw("TypeError", node, origin="concat")
         i = z3.Int("i!cat")
         arr = z3.Lambda([i], z3.If(i < sa.n, z3.Select(sa.arr, i), z3.Select(sb.arr, i - sa.n)))
-        return VSeq(sa.sk, arr, sa.n + sb.n, origin="fresh")
+        r = VSeq(sa.sk, arr, sa.n + sb.n, origin="fresh")
+        if sa.elem is sb.elem:
+            r.elem = sa.elem
+        r.member_src = ("union", [self.snapshot_members(sa), self.snapshot_members(sb)], r.arr, r.n)
+        return r
+
+    def snapshot_members(self, s):
+        """an immutable view of a sequence for membership questions (keeps its own provenance if still valid)"""
+        c = VSeq(s.sk, s.arr, s.n)
+        c.elem = s.elem
+        src = getattr(s, "member_src", None)
+        if src is not None and s.arr is src[2] and s.n is src[3]:
+            c.member_src = (src[0], src[1], c.arr, c.n)
+        return c
 
     def as_seq(self, ex, v):
         if isinstance(v, VSeq):
@@ -661,7 +691,7 @@ class Ext:
                     for k, (p, v) in m.items.items():
                         if sym.is_concrete_bool(p) is not True:
                             raise Unsupported("iteration over dict with symbolic presence")
-                        kv = VStr(k) if isinstance(k, str) else VInt(k)
+                        kv = getattr(m, "keyvals", {}).get(k) or (VStr(k) if isinstance(k, str) else VInt(k))
                         items.append({"items": VTup([kv, v]), "keys": kv, "values": v}[it.ik])
                     return IterView(concrete_items=items)
                 if isinstance(m, VMap):
